@@ -14,7 +14,7 @@ import vlib
 FIX = "FixD1 = TRUE FixD2 = TRUE FixD4 = TRUE FixD5 = TRUE FixD12 = TRUE FixD13 = TRUE FixD14 = TRUE"
 INVS = ("C02_NoOverlap C04_Lifecycle C04_SpawnRet C05_AtMostOnce C05_InOrder C05_Fresh C05_Numbered C05_Complete "
         "C06_Alive C06_Bounded C06_CleanKF C07_DoneAfterStopKF C07_Drained C07_DrainedActed C07_ActsOnSound C07_AllDoneKF "
-        "C08_KidsFirstKF C08_Terminal C08_Children C08_NotDoneEarlyKF C13_Chain")
+        "C10_Resolvable C10_DupNoEffect C08_KidsFirstKF C08_Terminal C08_Children C08_NotDoneEarlyKF C13_Chain")
 
 A1 = {"A": {"parent": "", "kids": [], "maxRestarts": 1}}
 A0 = {"A": {"parent": "", "kids": [], "maxRestarts": 0}}
@@ -39,10 +39,10 @@ def T(**kw):
     return {k: {"target": v[0], "graceful": v[1]} for k, v in kw.items()}
 
 
-def I(actors, parent, roots, kids, mr, nmsg, sendto, toks, tgt, grace, faults, crash="AllKinds", batch=4, ifaults=0):
+def I(actors, parent, roots, kids, mr, nmsg, sendto, toks, tgt, grace, faults, crash="AllKinds", batch=4, ifaults=0, dup=0):
     return ("Actors <- %s Parent <- %s Roots <- %s KidsOf <- %s MaxRestarts <- %s NMsg = %d SendTo <- %s Toks <- %s TokTarget <- %s "
-            "TokGraceful <- %s Faults = %d IFaults = %d CrashKinds <- %s Batch = %d" % (
-                actors, parent, roots, kids, mr, nmsg, sendto, toks, tgt, grace, faults, ifaults, crash, batch))
+            "TokGraceful <- %s Faults = %d IFaults = %d CrashKinds <- %s Batch = %d MaxDup = %d" % (
+                actors, parent, roots, kids, mr, nmsg, sendto, toks, tgt, grace, faults, ifaults, crash, batch, dup))
 
 
 def one(mr, nmsg, toks, grace, faults, **kw):
@@ -65,6 +65,9 @@ INST = {
     "one_i": (one("MR1_1", 3, "T0", "G_t1", 1, crash="UserOnly"), A1, T()),
     # two failures, the first with a message queued behind it (replayed successfully): the budget is for the whole life
     "one_j": (one("MR1_1", 3, "T0", "G_t1", 2, crash="UserOnly"), A1, T()),
+    # duplicate spawns and respawn of a stopped id, with pending messages and a graceful drain in progress
+    "dup_a": (one("MR0_1", 2, "T1", "G_t1", 0, dup=2), A0, T(t1=("A", True))),
+    "dup_b": (one("MR0_1", 1, "T1", "G_none", 1, dup=2, crash="UserOnly"), A0, T(t1=("A", False))),
     # the Stopped handler itself panics (after poison, after stop, after a crash)
     "one_s": (one("MR1_1", 1, "T1", "G_t1", 2, crash="StoppedAndUser"), A1, T(t1=("A", True))),
     "pair_a": (I("Pair", "ParentPair", "RootP", "KidsPair", "MRc0p1", 1, "SendC", "T1", "T1onP", "G_t1", 1), pair(1, 0), T(t1=("P", True))),
@@ -85,14 +88,19 @@ PLAN = {
         "C07": ["one_a", "one_b", "one_d", "one_s", "pair_a", "chain_b"],
         "C08": ["pair_a", "pair_b", "chain_a", "chain_b", "fan_a"],
         "C13": ["one_a", "one_c", "one_d", "one_g", "pair_a"],
-        "C12": ["one_a", "one_c", "one_d", "pair_a"],
+        "C12": ["one_a", "one_c", "one_d", "dup_a", "pair_a"],
+        "C10": ["dup_a", "dup_b", "one_a", "pair_a"],
     },
     "thorough": {p: ["one_a", "one_b", "one_c", "one_d", "one_e", "one_f", "one_g", "one_h", "one_i", "one_j", "one_s", "pair_a", "pair_b", "chain_a", "chain_b", "fan_a"]
                  for p in ("C02", "C04", "C05", "C06", "C07", "C08", "C13", "C12")},
 }
+PLAN["thorough"]["C10"] = ["dup_a", "dup_b", "one_a", "one_d", "pair_a", "pair_b", "chain_a"]
+PLAN["thorough"]["C12"].append("dup_a")
+_unused = {
+}
 
 TRACE_INV = {
-    "C02": ["T_C02"], "C04": ["T_C04"], "C05": ["T_C05"], "C06": ["T_C06"], "C07": ["T_C07"], "C08": ["T_C08"], "C13": ["T_C13"],
+    "C02": ["T_C02"], "C04": ["T_C04"], "C05": ["T_C05"], "C06": ["T_C06"], "C07": ["T_C07"], "C08": ["T_C08"], "C13": ["T_C13"], "C10": ["T_C10"],
 }
 STRICT = {
     "C06": {"T_C06_Clean_strict": "KF-PENDINGSTOP"},
@@ -101,9 +109,14 @@ STRICT = {
 }
 
 
+# histories in which an id is spawned again: the token / exhaustion predicates (one process per name) do not apply
+INVS_DUP = "C02_NoOverlap C04_Lifecycle C05_AtMostOnce C05_InOrder C06_Alive C10_Resolvable C10_DupNoEffect C13_Chain"
+
+
 def model_cfg(inst, eager):
+    invs = INVS_DUP if "MaxDup = 0" not in INST[inst][0] else INVS
     return ("CONSTANTS " + INST[inst][0] + " Eager = %s " % ("TRUE" if eager else "FALSE") + FIX +
-            "\nSPECIFICATION Spec\nINVARIANTS " + INVS + "\n")
+            "\nSPECIFICATION Spec\nINVARIANTS " + invs + "\n")
 
 
 def trace_consts(inst):
@@ -405,15 +418,19 @@ def confirm_death(sc, binp, rf):
     return p.returncode != 0
 
 
-def confirm_history(sc, binp, prop, inst, rf):
-    p = vlib.run([binp, "-in", write_single(sc, rf), "-out", sc.path("single.out")], ok_codes=None, timeout=120)
-    if p.returncode != 0:
-        return False
-    recs = [normalise(json.loads(l), inst) for l in open(sc.path("single.out")) if l.strip()]
-    if not recs:
-        return False
-    r = trace_check(sc, inst, recs, TRACE_INV[prop], "confirm")
-    return bool(r.violated)
+def confirm_history(sc, binp, prop, inst, rf, tries=6):
+    """the scenario is run again; a violation that depends on timing inside the engine counts once it shows again"""
+    for _ in range(tries):
+        p = vlib.run([binp, "-in", write_single(sc, rf), "-out", sc.path("single.out")], ok_codes=None, timeout=120)
+        if p.returncode != 0:
+            return False
+        recs = [normalise(json.loads(l), inst) for l in open(sc.path("single.out")) if l.strip()]
+        if not recs:
+            return False
+        r = trace_check(sc, inst, recs, TRACE_INV[prop], "confirm")
+        if r.violated:
+            return True
+    return False
 
 
 def do_replay(sc, binp, prop, path):
@@ -426,5 +443,5 @@ def do_replay(sc, binp, prop, path):
     return 1 if ok else 0
 
 
-CHECKS = {p: run for p in ("C04", "C05", "C06", "C07", "C08", "C13")}
+CHECKS = {p: run for p in ("C04", "C05", "C06", "C07", "C08", "C13", "C10")}
 CHECKS_EVENTS = run   # C12 (lifecycle-event part) is dispatched from fam_events
